@@ -331,7 +331,14 @@ def handle (op : String) (c i : Json) : Except String (Json × String) := do
         if J.isNull (J.keyD c "fattrs" Json.null) then
           pure (J.obj [("core", J.ofStrList ((writeCoreD es ds dds ga fs).map String.ofList))], "ok")
         else
-          pure (J.obj [("core", J.ofStrList ((writeCoreF es ds dds ga fs).map String.ofList))], "ok")
+          -- with "tables" the value tables of the matrix as well: the whole file (writeCoreH)
+          if J.isNull (J.keyD c "tables" Json.null) then
+            pure (J.obj [("core", J.ofStrList ((writeCoreF es ds dds ga fs).map String.ofList))], "ok")
+          else
+            let ts ← (← J.arr (← J.key c "tables")).mapM fun tj => do
+              let ents ← (← J.arr (← J.key tj "entries")).mapM fun e => do pure ((← J.nat (← J.idx e 0)), (← J.str (← J.idx e 1)).toList)
+              pure ({ name := (← J.str (← J.key tj "name")).toList, entries := ents } : WTable)
+            pure (J.obj [("core", J.ofStrList ((writeCoreH es ts ds dds ga fs).map String.ofList))], "ok")
   | "post" =>
     -- i = {"lines": the lines of a file, "final": the projection of the matrix dbc.load returns (names, senders, receivers, comments,
     -- attributes that are neither carriers nor ENUM)}
